@@ -51,3 +51,7 @@ chk("C03", "E1", "exploration",
     "deterministic simulation: real relay handshake server (and honest client) over an in-memory duplex pipe with scriptable TLS exporter; grammar-driven adversarial client with captured transcripts; stream-cut faults",
     "Seeded exploration of handshake sessions: honest clients (real clientside) under every exporter agreement/disagreement and allow/deny policy must always authenticate with the right mechanism and see denials; adversarial clients (8 header x 11 reply shapes incl. replayed victim transcripts and wrong-key signatures) must never be authenticated as the victim; stream cuts at every frame boundary must not hang or admit.",
     "TLS exporter modelled as a per-session keyed PRF; Ed25519 trusted; the adversary only replays or signs with its own keys.")
+chk("C09", "E1", "exploration",
+    "deterministic simulation: real RateLimited reader over a scripted byte source on a virtual clock with live reconfiguration, plus the public Bucket with extreme parameters, both against an i128 reference token-bucket model",
+    "Seeded exploration: (a) every read of the real rate-limited reader must complete exactly when the model says tokens and data are available (never earlier, never later), cumulative bytes stay within burst + accrued refill + one chunk, no read stalls; (b) Bucket::consume's verdict and deadline equal the model's for parameters up to i64::MAX, byte counts up to u64::MAX and idle gaps beyond 2^32 ms; arithmetic panics are caught (overflow checks on).",
+    "Live config changes are issued between reads. Refill periods >= 2^32 ms not generated.")
